@@ -9,7 +9,7 @@ MANIFEST = dict(
          "and any list, the emitted LIMIT/OFFSET pair computed by the mirror of range_of_ranges selects exactly the rows at the "
          "positions the takes select one after the other), filter_keeps_order, map_keeps_order, last_sort_wins, sort_sorted (the sort "
          "algebra the back end relies on when it keeps a single ORDER BY per block), sublist/in-place facts of the reference "
-         "semantics; on the mirror of the sorting inference of postprocess.rs (Model.InferSorts): infer_sorts_tracks (after any prefix "
+         "semantics, repeated_sort_key_never_decides / repeated_sort_key_keeps_the_order (in a key list that repeats a column the FIRST occurrence orders, a later one never decides; dedup_keeping_last_counterexample); on the mirror of the sorting inference of postprocess.rs (Model.InferSorts): infer_sorts_tracks (after any prefix "
          "of a block the state of the pass is the sort in effect: the most recent Sort or the inherited order, retained by select / filter "
          "/ take / the left input of join, reset by aggregate / distinct), take_gets_the_sort_in_effect and "
          "distinct_on_gets_the_sort_in_effect (the ORDER BY in front of every LIMIT / DISTINCT ON is that sort, or the take's embedded "
@@ -46,7 +46,8 @@ def run(ctx):
                            "infer_sorts_tracks", "take_gets_the_sort_in_effect", "distinct_on_gets_the_sort_in_effect", "sorts_only_where_needed",
                            "cte_provides_sort_columns", "readers_see_the_stored_sorting", "retained_by_join", "reset_and_replace",
                            "flattener_hands_on_the_sort_in_effect", "transform_carries_the_sort_in_effect", "group_body_sort_is_local",
-                           "sorts_in_front_of_a_group_are_dropped", "join_side_is_isolated"])
+                           "sorts_in_front_of_a_group_are_dropped", "join_side_is_isolated",
+                           "repeated_sort_key_never_decides", "repeated_sort_key_keeps_the_order", "dedup_keeping_last_counterexample"])
     ctx.rule = ("(i) every chain of 1-3 takes with bounds from {open, 1..4} (exhaustive): LIMIT/OFFSET of the real SQL vs the Lean mirror; "
                 "(ii) generated pipelines biased towards sort/take and order-retaining or -resetting transforms x random databases: "
                 "SQLite row sequence vs reference semantics; non-trivial = compared as a sequence with >= 2 rows, or a take chain whose "
